@@ -104,9 +104,15 @@ func (e *Engine) callStatic(st *State, fr *Frame, res ssa.Value, callee *ssa.Fun
 	name := callee.String()
 	e.callAssertHooks(st, fr, shortFn(callee), args, pos)
 	// 1. built-in models of external functions
+	e.poolCall = nil
 	if e.externModel(st, res, callee, args, c) {
 		e.usedExterns[name] = true
 		return nil, true
+	}
+	if e.poolCall != nil {
+		nf := e.poolCall
+		e.poolCall = nil
+		return e.inline(st, fr, res, nf, nil, nil)
 	}
 	// 2. contract
 	if con := e.P.contractFor(callee); con != nil && !con.has("inline") && !e.forceInline(callee) {
@@ -188,6 +194,15 @@ func (e *Engine) canInline(callee *ssa.Function, st *State) bool {
 		return false
 	}
 	if !inFalco(callee) {
+		// real standard-library code is executed when a contract file asks for it (`extern F inline`)
+		if con := e.P.contractFor(callee); con != nil && con.has("inline") {
+			for _, f := range st.frames {
+				if f.fn == callee {
+					return false
+				}
+			}
+			return len(st.frames) < 8
+		}
 		return false
 	}
 	if e.forceInline(callee) {
@@ -225,7 +240,7 @@ func (e *Engine) canInline(callee *ssa.Function, st *State) bool {
 		return n <= 40 && len(e.P.loopsOf(callee)) == 0
 	}
 	if len(e.P.loopsOf(callee)) > 0 {
-		return n <= 40
+		return n <= 60
 	}
 	return n <= 80
 }
@@ -562,6 +577,21 @@ func (e *Engine) invoke(st *State, fr *Frame, res ssa.Value, c *ssa.CallCommon, 
 			st.assume(goal)
 		}
 	}
+	// dynamic type syntactically known: static dispatch
+	if recv.K == KIface {
+		var id int
+		if _, err := fmt.Sscanf(recv.X[0], "%d", &id); err == nil && fmt.Sprint(id) == recv.X[0] && id > 0 {
+			e.P.reg.mu.Lock()
+			dt := e.P.reg.tagType[id]
+			e.P.reg.mu.Unlock()
+			if dt != nil {
+				if m := e.P.prog.LookupMethod(dt, c.Method.Pkg(), c.Method.Name()); m != nil {
+					rv := e.unboxIface(st, recv, dt)
+					return e.callStatic(st, fr, res, m, nil, append([]Val{rv}, args...), c, pos)
+				}
+			}
+		}
+	}
 	// interface-level contract
 	if con := e.P.ifaceContract(c.Value.Type(), mname); con != nil {
 		e.applyIfaceContract(st, fr, res, c, con, recv, args, pos)
@@ -874,7 +904,19 @@ func (e *Engine) appendOp(st *State, s, extra Val, rt types.Type) Val {
 				inner = sto(inner, "(bvadd (bvadd "+s.X[0]+" "+s.X[1]+") "+bvLit(i, 64)+")", src[k])
 			}
 		} else {
+			old := inner
 			inner = e.fresh("append.elems", "(Array (_ BitVec 64) "+l.Sort+")")
+			// the first len(s) elements are kept; the n new ones are copies of the source
+			e.nfresh++
+			q := sym(fmt.Sprintf("q.ap!%d", e.nfresh))
+			lo := s.X[0]
+			st.assume(fmt.Sprintf("(forall ((%s (_ BitVec 64))) (=> (and (bvsle %s %s) (bvslt %s (bvadd %s %s))) (= (select %s %s) (select %s %s))))",
+				q, lo, q, q, lo, s.X[1], inner, q, old, q))
+			if extra.K == KSlice {
+				srcArr := sel(arr, extra.T)
+				st.assume(fmt.Sprintf("(forall ((%s (_ BitVec 64))) (=> (and (bvsle #x0000000000000000 %s) (bvslt %s %s)) (= (select %s (bvadd (bvadd %s %s) %s)) (select %s (bvadd %s %s)))))",
+					q, q, q, n, inner, lo, s.X[1], q, srcArr, extra.X[0], q))
+			}
 		}
 		st.heap[key] = sto(arr, base, inner)
 	}
@@ -884,6 +926,7 @@ func (e *Engine) appendOp(st *State, s, extra Val, rt types.Type) Val {
 // ---- contracts at call sites ------------------------------------------------------------------
 
 type SpecEnv struct {
+	rootParams       map[string]bool
 	localsOnlyDollar bool
 	vars map[string]Val
 	pkg  *types.Package
@@ -957,10 +1000,20 @@ func (e *Engine) applyContract(st *State, fr *Frame, res ssa.Value, callee *ssa.
 	}
 	// requires -> obligations at the call site
 	for k, c := range con.get("requires") {
+		nerr, nnote := len(e.specErrors), len(e.notes)
 		g := e.evalSpecBool(st, st, c.Expr, env)
-		if fr != nil {
+		if c.Optional && len(e.specErrors) > nerr {
+			e.specErrors, e.notes = e.specErrors[:nerr], e.notes[:nnote]
+			continue
+		}
+		if fr != nil && (fr.fn == e.fn || e.wantSafe) {
+			// a precondition is an obligation of the function under verification (its properties);
+			// inside inlined helpers it is only demanded in safe mode
 			name, where := e.siteName(fr, "pre", pos, fmt.Sprintf("%s requires#%d %s", shortFn(callee), k+1, c.Label))
-			props := c.Props
+			props := e.props
+			if e.con != nil && len(e.con.Props) > 0 {
+				props = e.con.Props
+			}
 			e.oblige(st, name, "K2", c.Text, g, where, props)
 		} else {
 			st.assume(g)
@@ -997,7 +1050,13 @@ func (e *Engine) applyContract(st *State, fr *Frame, res ssa.Value, callee *ssa.
 		if strings.Contains(c.Text, "$") {
 			continue // mentions locals of the callee: a proof obligation there, not visible to callers
 		}
-		st.assume(e.evalSpecBool(st, pre, c.Expr, env))
+		nerr, nnote := len(e.specErrors), len(e.notes)
+		g := e.evalSpecBool(st, pre, c.Expr, env)
+		if c.Optional && len(e.specErrors) > nerr {
+			e.specErrors, e.notes = e.specErrors[:nerr], e.notes[:nnote]
+			continue
+		}
+		st.assume(g)
 	}
 	for _, c := range con.get("assume-ensures") {
 		st.assume(e.evalSpecBool(st, pre, c.Expr, env))
